@@ -48,11 +48,13 @@ def make_scenario(seed, i, tier):
     rng = random.Random(seed)
     S = sizes(tier)["S"]
     n_intf = rng.choice([3, 4, 4, 5])
+    if i % 4 == 2:
+        n_intf = 8          # long paths with several sub-paths of unequal length in the upper ensembles
     prof = {"n_intf": n_intf, "steps": S, "maxlength": 2000, "lambda_minus_one": False,
             "delete_old": True, "delete_old_all": True, "screen": 0, "pattern": False,
             "allowmaxlength": False, "multi_engine": rng.random() < 0.3,
             "wf_p": [0.0, 0.5, 1.0, 0.3][i % 4] if i < 8 else rng.choice([0.0, 0.3, 0.6, 1.0]),
-            "cap_p": 0.5,
+            "cap_p": 0.0 if i % 4 == 2 else 0.5,
             "workers": [1, n_intf - 1, 2, 1][i % 4] if i < 8 else rng.randrange(1, n_intf),
             "order_model": ["fifo", "frames", "inverse", "uniform"][i % 4] if i < 8
             else rng.choice(SC.ORDER_MODELS)}
@@ -65,6 +67,10 @@ def make_scenario(seed, i, tier):
         scn["moves"] = ["sh"] + ["wf"] * nwf + ["sh"] * (n - 1 - nwf)
         scn["cap"] = rng.choice(range(nwf, n - 1)) + 0.5
         scn["workers"] = min(scn["workers"], n - 1)
+    elif i % 4 == 2:
+        # wire fencing everywhere with a single jump per move: the choice of the sub-path that seeds the
+        # move is not washed out by further jumps
+        scn["n_jumps"] = 1
     elif i % 4 == 3:
         scn["moves"][1] = "wf"          # [0+] with wire fencing: high-acceptance zero swaps
     nrestart = [0, 2, 1, 3][i % 4] if i < 8 else rng.choice([0, 0, 1, 2, 3])
